@@ -744,7 +744,12 @@ def run_sessions(runner, sessions, deadline_at, on_result, on_end,
                 pending = on_end(s, True, None) + pending
                 runner.cleanup(s)
             elif time.time() - s.last_progress > (
-                    runner.stall_s if s.seen_bytes else runner.start_s):
+                    # a hang only counts when it reproduces alone, and alone
+                    # it gets three times the limit (a loaded machine must not
+                    # turn a slow case into an alarm)
+                    runner.stall_s * (3 if getattr(s, "confirm", None)
+                                      is not None else 1)
+                    if s.seen_bytes else runner.start_s):
                 stalled = time.time() - s.last_progress
                 diag = runner.diagnose(s)
                 diag["kind"] = "hang"
